@@ -120,11 +120,11 @@ let handle (stack : string) (args : string list) : string =
         (match BinIO.dump st (get s) with Some b -> "B " ^ hex b | None -> "NOT_SERIALISABLE")
     | "load" :: s :: h :: rest ->
         let bytes = unhex h in
-        let bytes = (match rest with [lim] -> take (int_of_string lim) bytes | _ -> bytes) in
+        let bytes = (match rest with lim :: _ -> take (int_of_string lim) bytes | _ -> bytes) in   (* a 2nd extra token: stream exception mask *)
         (match Extract_stack.m_load st bytes with
          | BinIO.Good (f, _) -> slots.(int_of_string s) <- Some f; "LOADED"
          | BinIO.Bad _ -> "EXCEPTION")
-    | ["truncs"; h] ->
+    | "truncs" :: h :: ([] | [_]) ->   (* an optional stream exception mask: no meaning for the model reader *)
         let bytes = unhex h in
         let n = Stdlib.List.length bytes in
         let b = Buffer.create n in
